@@ -51,7 +51,7 @@ CLAIMED.update({
     "C04": ("exploration",
             "bounded-exhaustive enumeration of all shape triples (m,n,k)<=5 (quick) / <=8 (thorough) x all ordered pairs of 7 fill patterns with exact (dyadic) arithmetic so every oracle is an equality; every ordered pair of shapes for the element-wise operators in child processes under ASan/UBSan",
             "Every operator spelling (member functions, operators, compound assignment, free operators) is compared entry by entry with its definition on operands whose sums and products are exact in binary64, for every shape triple up to the bound including all non-square ones; transpose/identity/involution laws, matrix-vector/vector-matrix/outer/dot/cross against products of row and column matrices, Trace, Norm, predicates with every single-entry perturbation, Sub_Matrix/Delete/Return for every index, block constructor for every 2x2 arrangement with block dimensions 0..3. For every ordered pair of shapes the element-wise operations must return iff the shapes are equal, else exit with a diagnostic and no sanitizer report.",
-            "Entries come from 7 deterministic patterns over half-integers and powers of two (not arbitrary reals): rounding behaviour of inexact sums is outside this check.",
+            "Entries come from 7 deterministic patterns over half-integers and powers of two (not arbitrary reals): rounding behaviour of inexact sums is outside this check; scalar multiplication and division are also run with the scalars 3, -7, 0.1 and 1.5, where each entry is one correctly rounded binary64 operation.",
             "§3 C04"),
 })
 
@@ -64,7 +64,7 @@ CLAIMED.update({
     "C15": ("exploration",
             "bounded-exhaustive enumeration of structured families n<=5 (quick) / n<=7 (thorough): QR on integer/graded/all non-singular 3x3 matrices; symmetric M = Q diag(lambda) Q^T for every member of a finite orthogonal family x eigenvalue ratio patterns x sign patterns, against long-double cyclic Jacobi; every Eigensystem/Eigenvectors call in its own child process with a 2 s limit",
             "QR: Q^T Q = I and QR = M within 16 n^2 u, R exactly zero below the diagonal, on every enumerated non-singular matrix. Eigenvalues: spectrum equals the Jacobi reference as a multiset, sums to the trace, multiplies to the determinant. Eigensystem/Eigenvectors: must terminate (time-bounded child), return n unit vectors, each an eigenpair within 1e-8*|M|, each reference eigenvalue represented once - including diagonal and block-diagonal matrices and eigenvectors with zero components, which is where the pinned code aborted or looped.",
-            "Orthogonal family and ratio patterns are finite lists (signed permutations, Givens products with angles pi/6, pi/4, pi/3, 1, Householder reflectors of integer vectors; ratios 0.1..0.8). Five n>=6 matrices on which Eigenvalues hits its 200-step cap are recorded in KNOWN_FINDINGS.txt.",
+            "Orthogonal family and ratio patterns are finite lists (signed permutations, Givens products with angles pi/6, pi/4, pi/3, 1, rotations in the planes (i,i+2) giving checkerboard matrices, Householder reflectors of integer vectors; ratios 0.1..0.8). Overall magnitudes 1, 40, 1e-7, 1e7 (thorough also 1e-30, 1e30, 3e-4); QR families include nearly triangular matrices with sub-diagonal parts of relative size 1e-6..1e-15.",
             "§3 C15"),
 })
 
@@ -78,9 +78,9 @@ CLAIMED.update({
 
 CLAIMED.update({
     "C10": ("fault_enumeration",
-            "enumeration of guard boundaries: a declarative table of 87 guarded entry points x boundary letters (index = size-1, size, size+1, UINT_MAX; shapes equal / transposed / off by one; table lengths 0..4; x at 0.99 % and 1.01 % of the edge interval outside both domain ends; parameters on both sides of every range test), one request per child process under ASan+UBSan",
+            "enumeration of guard boundaries: a declarative table of 89 guarded entry points x boundary letters (index = size-1, size, size+1, UINT_MAX; shapes equal / transposed / off by one; table lengths 0..4; x at 0.99 % and 1.01 % of the edge interval outside both domain ends; parameters on both sides of every range test), one request per child process under ASan+UBSan",
             "For every listed request the side of the guard is stated in the table and the child's observable outcome is classified (returned / exit with failure status and non-empty diagnostic / sanitizer report / signal / timeout): rejected side must produce exactly the diagnostic exit, accepted side must return. Running each request in its own sanitized process turns 'reads or writes out of bounds' into an outcome instead of a plausible number.",
-            "The table is hand-written from the property's anchors (980 requests); entry points not named there (Configuration, terminal output helpers, Logger) are not covered. The exact 1 % point of the extrapolation tolerance is not probed (rounding decides its side).",
+            "The table is hand-written from the property's anchors (995 requests; the evidence lists which of the library's diagnostics answered); entry points not named there (Configuration, terminal output helpers, Logger) are not covered. The exact 1 % point of the extrapolation tolerance is not probed (rounding decides its side).",
             "§3 C10"),
 })
 
@@ -95,7 +95,7 @@ CLAIMED.update({
 CLAIMED.update({
     "C07": ("exploration",
             "bounded-exhaustive enumeration: per family a complete product of a parameter alphabet and an argument grid containing the support boundaries, both sides of every branch and far tails (binomial: all trials 0..170 x 6 p x all x; Poisson: 14 means x all counts 0..500), coherence oracles between the two members of each pair",
-            "Coherence is a relation between two functions that no single-point test touches: on every adjacent pair of grid points the CDF difference is compared with the harness's own 64-point Gauss-Legendre integral of the library's PDF (32-point self-check), discrete CDFs with the running sum of the PMF and their steps with the PMF; range, monotonicity and limits of every CDF; Quantile_Gauss and Inv_CDF_Poisson against their CDFs; Poisson likelihoods against PMF_Poisson (binned: all tuples over small alphabets for 1..4 bins); KDE non-negative on 2385 points and integrating to one within 1e-6 for 120 data/weight/window/bandwidth configurations.",
+            "Coherence is a relation between two functions that no single-point test touches: on every adjacent pair of grid points the CDF difference is compared with the harness's own 64-point Gauss-Legendre integral of the library's PDF (32-point self-check), discrete CDFs with the running sum of the PMF and their steps with the PMF; range, monotonicity and limits of every CDF; Quantile_Gauss and Inv_CDF_Poisson against their CDFs; Poisson likelihoods against PMF_Poisson (binned: all tuples over small alphabets for 1..4 bins); KDE non-negative and integrating to one within 1e-6 for 120 data/weight/window/bandwidth configurations and for the complete lattice of weighted samples (n=6; thorough n=6,7,9: positions with gaps from {0.1,1}, every weight from {0.2,1,5}, window flush with the data, two bandwidths: 1.8e6 samples).",
             "Parameter alphabets are finite (e.g. normal mu in {0,-3,1e3} x sigma in {1e-3,1,50}; chi-square dof in {0.5,...,342,344,400}). Intervals on which the 32/64-point self-check does not agree (integrable singularities at 0) are skipped and counted.",
             "§3 C07"),
 })
@@ -124,7 +124,7 @@ CLAIMED.update({
 CLAIMED.update({
     "C19": ("exploration",
             "complete enumeration of the finite parts: all (workers,tasks) in [1,32]x[0,256] (quick) / [1,128]x[0,1024] (thorough), all integer (min,max) in [-40,40]^2 x step 1..40, all step counts 0..200 / 0..2000 on a (min,max) alphabet, all non-decreasing lists over {0,1,2,3} of length <=6 with every element/midpoint/+-ulp/outside target, all lists of length 0..4 over 3-letter alphabets of int, double and std::string with every Sub_List index pair (also under ASan), all permutations of dyadic data sets n<=6",
-            "Each helper is compared with its element-wise definition on every member of the stated finite space: shares of Workload_Distribution differ by at most one and span 0..tasks; Range is the half-open range in the stated direction; Linear_Space/Log_Space have the requested count, start at min, end at max within rounding, are strictly monotone and equally spaced (in the logarithm); Locate_Closest_Location returns an index of a nearest element including ties; the list templates agree with ==, concatenation, transposition and the clamped inclusive Sub_List definition; mean/median/variance/standard deviation/weighted average obey permutation, translation and power-of-two scaling laws exactly on dyadic data and reduce to each other.",
+            "Each helper is compared with its element-wise definition on every member of the stated finite space: shares of Workload_Distribution differ by at most one and span 0..tasks; Range is the half-open range in the stated direction; Linear_Space/Log_Space have the requested count, start at min, end at max within rounding, are strictly monotone and equally spaced (in the logarithm); Locate_Closest_Location returns an index of a nearest element including ties; the list templates agree with ==, concatenation, transposition and the clamped inclusive Sub_List definition; mean/median/variance/standard deviation/weighted average obey permutation, translation (by 16 and by 2^20..2^40, with the (u*shift)^2 bound of a two-pass scheme) and power-of-two scaling laws on dyadic data and reduce to each other; unequal weights against an independent Cochran reference.",
             "Value alphabets are small and fixed; random long lists of the property's quantifier are replaced by pattern lists up to length 200.",
             "§3 C19"),
 })
@@ -140,7 +140,7 @@ CLAIMED.update({
 CLAIMED.update({
     "C18": ("model_checking",
             "the caller's generator is the environment: a real std::mt19937 is scripted (state loaded through operator>> with inverted tempering) so the uniforms each sampler sees are enumerated on complete grids; explicit enumeration of all interleavings of 10 sampler letters up to depth 3 (quick) / 4 (thorough) from two seeds, every transition compared with the same call made first in a pristine process that loads the serialised generator state",
-            "Reproducibility and purity are statements about every generator state and every sequence of sampler calls: all sequences up to the bound are executed and each further call must produce the same output and leave the same generator state as in a pristine process started from the serialised state (so no sampler keeps hidden state or consults another entropy source: random_device, rand, random and getrandom are interposed and must stay at zero). The laws are decided exactly instead of statistically: Sample_Uniform is affine in the scripted uniform bit for bit, Sample_Gauss hits the normal quantile within the Kolmogorov distance implied by Inv_Erf's 1e-4, inverse-transform samples satisfy cdf(x)=u, rejection sampling returns the first pair under the density on a full grid of first trials, Sample_Poisson follows Knuth's product rule on every uniform sequence over a 12-letter grid up to length 5/6 (and on two-level sequences for means 600..5000), the Metropolis kernel is compared rule by rule on a grid of (start, proposal, acceptance) uniforms, and all (sample, thinning, burn_in) triples of the stated grid return exactly `sample` states of the reference chain at iterations >= burn_in spaced by thinning.",
+            "Reproducibility and purity are statements about every generator state and every sequence of sampler calls: all sequences up to the bound are executed and each further call must produce the same output and leave the same generator state as in a pristine process started from the serialised state (so no sampler keeps hidden state or consults another entropy source: random_device, rand, random and getrandom are interposed and must stay at zero). The laws are decided exactly instead of statistically: Sample_Uniform is affine in the scripted uniform bit for bit, Sample_Gauss hits the normal quantile within the Kolmogorov distance implied by Inv_Erf's 1e-4, inverse-transform samples satisfy cdf(x)=u, rejection sampling returns the first pair under the density on a full grid of first trials, Sample_Poisson follows Knuth's product rule on every uniform sequence over a 12-letter grid (15 letters for means below 0.1: mean/2, 1-mean/2, 1-mean/4 added) up to length 5/6 (and on two-level sequences for means 600..5000); targets with bounded support, plateaus and zero-density regions in every sampler from 8/32 seeds: twice from equal states (identical output and final state), no foreign entropy, inside the domain, never leaving the support once reached, the Metropolis kernel is compared rule by rule on a grid of (start, proposal, acceptance) uniforms, and all (sample, thinning, burn_in) triples of the stated grid return exactly `sample` states of the reference chain at iterations >= burn_in spaced by thinning.",
             "Scripted grids are finite (stratified u=(i+1/2)/m); a supplementary Kolmogorov-Smirnov test at 1e-9 on real streams (8 seeds) is included but is not what decides the property. Poisson sequences whose product ties with exp(-mean) within 1e-12 are skipped and counted.",
             "§3 C18"),
 })
@@ -148,7 +148,7 @@ CLAIMED.update({
 CLAIMED.update({
     "C20": ("model_checking",
             "explicit enumeration of file states (every sequence of two / three exports of differently shaped tables to one path followed by an import) and of configurations: shapes x value patterns x header lengths x unit arrangements for the round trip, and the four build configurations g++/clang++ x -O0/-O2 of Natural_Units.cpp, each probed for every unit constant after start-up",
-            "The round trip is executed for every member of shapes {1,2,3,7,200}x{1,2,5,12} x 4 value patterns (integers, six-digit decimals over 600 decades, long fractions, dyadics) x {0,1,3} header lines x 3 unit arrangements over 60 decades (lists and both Export_Function overloads likewise): same shape, every value within half a unit of the sixth significant digit, six-digit decimals exactly. Whether a derived constant defined before its base constants has the right value is a property of the build configuration: Natural_Units.cpp is compiled in all four configurations on every run, a probe prints all 130 constants as hex floats, none may be 0/inf/NaN, 38 defining relations (Joule=kg m^2/s^2, Volt*Coulomb=Joule, Ohm=Volt/Ampere, Tesla, Hz, time and length multiples...) must hold within 8u in each build and the builds must agree within 2u.",
+            "The round trip is executed for every member of shapes {1,2,3,7,200}x{1,2,5,12} x 4 value patterns (integers, six-digit decimals over 600 decades, long fractions, dyadics) x {0,1,3} header lines x 3 unit arrangements over 60 decades (lists and both Export_Function overloads likewise): same shape, every value within half a unit of the sixth significant digit, six-digit decimals exactly. Whether a derived constant defined before its base constants has the right value is a property of the build configuration: Natural_Units.cpp is compiled in all four configurations on every run, a probe prints all 130 constants as hex floats, none may be 0/inf/NaN, 82 defining relations (Joule=kg m^2/s^2, Volt*Coulomb=Joule, Ohm=Volt/Ampere, Tesla, Hz, time and length multiples...) must hold within 8u in each build and the builds must agree within 2u.",
             "Needs g++ and clang++ on PATH (both present in this image). Table configurations whose quotient value/unit leaves the normal double range are excluded and counted. Other compilers or flags (-ffast-math, LTO) are not covered.",
             "§3 C20"),
 })
